@@ -31,7 +31,7 @@ SHARED = {"int64", "float64", "str", "bool", "datetime64[ns]", None}
 
 @st.composite
 def strat_case(draw, parsers="some", containers=("df", "df", "lf_full"), drop_rate=0, subsample_rate=0, regex_rate=0,
-               nan_rate=0):
+               nan_rate=0, nfc_rate=0):
     case = copy.deepcopy(draw(c08.shared_case()))
     case.pop("lazy_container", None)
     if parsers == "none" and case.get("parser_ops"):
@@ -66,6 +66,11 @@ def strat_case(draw, parsers="some", containers=("df", "df", "lf_full"), drop_ra
             t = draw(st.sampled_from(fl))
             rows = sorted(draw(st.sets(st.integers(0, len(t["cells"]) - 1), min_size=1, max_size=2)))
             case["nan_cells"] = [[t["name"], r] for r in rows]
+    if nfc_rate and draw(st.integers(1, 10)) <= nfc_rate:
+        chks = [ch for c in case["spec"]["columns"] for ch in c.get("checks", [])]
+        if chks:
+            draw(st.sampled_from(chks))["n_failure_cases"] = draw(st.sampled_from([1, 1, 2]))
+            case["nfc"] = True
     case["container"] = draw(st.sampled_from(list(containers)))
     case["lazy"] = draw(st.booleans())
     n = sp.table_nrows(case["table"])
@@ -282,6 +287,8 @@ def base_labels(ev, case):
         ev.labels.append("regex-column")
     if case.get("nan_cells"):
         ev.labels.append("float-NaN-cells")
+    if case.get("nfc"):
+        ev.labels.append("n_failure_cases")
     if case["spec"].get("drop_invalid_rows"):
         ev.labels.append("drop_invalid_rows")
     if case.get("opts"):
